@@ -96,6 +96,16 @@ def main():
             assert rc == 0, out
             sh("sed -i 's#=> /repo#=> %s#' %s/tools/harness/go.mod" % (rroot, vroot))
             # work in progress that is not committed (untracked sources) is not part of the machinery under test
+            # tracked proof / tool files that are being edited (uncommitted) are taken from HEAD, with a
+            # time stamp older than their compiled file so that nothing is rebuilt because of them
+            rc, out = sh("git -C /verif diff --name-only HEAD -- coq tools bin ocaml grammar corpus")
+            for f in out.split():
+                q = vroot + "/" + f
+                rc2, _ = sh("git -C /verif show HEAD:%s > %s" % (f, q))
+                vo = q[:-2] + ".vo" if q.endswith(".v") else None
+                if rc2 == 0 and vo and os.path.exists(vo):
+                    t = os.path.getmtime(vo) - 2
+                    os.utime(q, (t, t))
             rc, out = sh("git -C /verif ls-files --others --exclude-standard")
             for f in out.split():
                 for ext in ("", "o", "ok", "os"):   # X.v, X.vo, X.vok, X.vos
